@@ -133,6 +133,23 @@ func altValues(fam string, seed int64, tier string) []interface{} {
 	case "fixtures":
 		vs, _ := fixtures()
 		return vs
+	case "graphs": // the exhaustive small pointer graphs of the C04 family, as values for the stream model
+		var vs []interface{}
+		e := &emitter{collect: func(label string, v interface{}) {
+			keep := strings.HasPrefix(label, "ab1/") || strings.HasPrefix(label, "ab2/") || strings.HasPrefix(label, "fill") ||
+				strings.HasPrefix(label, "lists/") || strings.HasPrefix(label, "maps/") || strings.HasPrefix(label, "shared/")
+			if th && strings.HasPrefix(label, "ab3/") {
+				keep = true
+			}
+			if strings.HasPrefix(label, "fill2/") && !th && len(vs)%3 != 0 {
+				keep = false // a third of the two-node filler graphs in the quick tier
+			}
+			if keep {
+				vs = append(vs, v)
+			}
+		}}
+		famC04(e, g, false)
+		return vs
 	case "small": // exhaustive universe for C03: every encoding choice is enumerated by TLC
 		x := &zoo.Small{Name: "x", N: 1}
 		loop := &zoo.Node{Name: "l"}
